@@ -105,6 +105,16 @@ def main(tier, seed):
         rows += [rng.choice(rows) for _ in range(rng.randint(0, 2))]
         if rng.random() < 0.4:
             rows = [tr[rng.randrange(len(tr))]] + rows
+
+        def model_state():
+            sg = opf.subgraph
+            st_ = K.knn_state(sg)
+            st_.pop("order", None)
+            for a_ in ("constant", "min_density", "max_density", "best_k", "density"):
+                v_ = getattr(sg, a_, None)
+                st_[a_] = None if v_ is None else float(v_)
+            return st_
+        fitted = model_state()
         try:
             preds, clus = KC.knn_predict_rows(opf, it, rows, which)
         except Exception as ex:
@@ -129,6 +139,11 @@ def main(tier, seed):
             again, _ = KC.knn_predict_rows(opf, it, rows, which)
             if again != preds:
                 msg = "a second predict call returned different labels"
+        if not msg:
+            now = model_state()
+            ch = [f for f in fitted if repr(fitted[f]) != repr(now[f])]
+            if ch:
+                msg = "predict changed the fitted model (%s: %r -> %r), so later predictions depend on earlier ones" % (ch[0], fitted[ch[0]], now[ch[0]])
         if msg:
             nviol += 1
             if nviol <= 3:
